@@ -32,6 +32,29 @@ pub fn rat_of_f32(x: f32) -> Option<String> {
     Some(format!("{}{}/{}", if neg { "-" } else { "" }, n, d))
 }
 
+/// exact value of a finite f32 as a decimal string (finite: the denominator is a power of two);
+/// None outside the range u128 arithmetic covers (|x| < 2^-44 or >= 2^100)
+pub fn dec_of_f32(x: f32) -> Option<String> {
+    if !x.is_finite() { return None; }
+    if x == 0.0 { return Some("0".into()); }
+    let bits = x.to_bits();
+    let neg = bits >> 31 == 1;
+    let exp = ((bits >> 23) & 0xff) as i32;
+    let frac = (bits & 0x7f_ffff) as u128;
+    let (mant, e) = if exp == 0 { (frac, -149) } else { (frac | 0x80_0000, exp - 150) };
+    let sign = if neg { "-" } else { "" };
+    if e >= 0 {
+        if e > 100 { return None; }
+        return Some(format!("{sign}{}", mant << e));
+    }
+    let k = (-e) as u32;
+    if k > 44 { return None; }
+    let digits = format!("{}", mant * 5u128.pow(k));
+    let digits = if digits.len() <= k as usize { format!("{}{}", "0".repeat(k as usize + 1 - digits.len()), digits) } else { digits };
+    let (ip, fp) = digits.split_at(digits.len() - k as usize);
+    Some(format!("{sign}{ip}.{fp}"))
+}
+
 pub fn rat_to_f64(s: &str) -> Option<f64> {
     let (n, d) = s.split_once('/')?;
     Some(n.parse::<f64>().ok()? / d.parse::<f64>().ok()?)
